@@ -42,50 +42,3 @@ Proof.
   { induction (staged_rows x) as [|r rows IH]; [reflexivity|]. cbn [flat_map instr_steps app]. now rewrite IH. }
   rewrite E2. reflexivity.
 Qed.
-
-(* ---------------------------------------------------------------------------------------------
-   cond archive: Model/ArchiveOut.v is cli/archive.py of the working tree -- handle_output_path takes the decision
-   TRANSLATED from the sources on every answer of the file system, and main enters its steps in the translated order
-   (before the try block, inside it, in the bare `except:`, in `finally:`); create_archive has the one shape in which
-   `tar czf <output file>` is the only statement that touches the output file. *)
-From Conductor Require Import Lib.Str Model.ArchiveOut.
-
-Lemma archive_output_tie : forall p,
-  decision_code (handle_output_path p) =
-  gen_archive_output_decision (o_given p) (o_exists p) (o_is_dir p) (o_parent_exists p) (o_parent_is_dir p).
-Proof.
-  intros [g e d pe pd]. unfold handle_output_path, gen_archive_output_decision. cbn [o_given o_exists o_is_dir o_parent_exists o_parent_is_dir].
-  destruct g, e, d, pe, pd; reflexivity.
-Qed.
-
-Lemma archive_steps_tie :
-  steps_before_try = gen_archive_before_try /\ steps_try = gen_archive_try /\
-  steps_on_error = gen_archive_on_error /\ steps_finally = gen_archive_finally /\
-  gen_archive_tar_is_the_only_writer = true.
-Proof. repeat split; reflexivity. Qed.
-
-(* ---------------------------------------------------------------------------------------------
-   VersionIndex.copy_entries_to: the batches the model hands to bulk_load are the ones of the TRANSLATED method -- the
-   query chosen by the translated test on (tasks is None, latest_only); the whole table in ONE bulk_load, or one query
-   and one bulk_load per element of `tasks`, in order (so a task listed twice is queried twice and the second load meets
-   the primary key), counts summed; the four SQL texts are the ones the list functions of Model/Archive.v transcribe. *)
-Definition query_by_code (c : N) (T : str) (src : table) : list row :=
-  match c with
-  | 0 => q_all src
-  | 1 => q_latest_per_task src
-  | 2 => q_for_task T src
-  | _ => q_latest_for_task T src
-  end.
-
-Lemma copy_batches_tie : forall src tasks latest,
-  batches src tasks latest =
-  match tasks with
-  | None => [query_by_code (gen_copy_query true latest) [] src]
-  | Some ts => map (fun T => query_by_code (gen_copy_query false latest) T src) ts
-  end /\
-  gen_copy_whole_table_is_one_bulk_load = true /\ gen_copy_per_task_in_order_counts_summed = true /\
-  gen_sql_texts_are_the_transcribed_ones = true.
-Proof.
-  intros src tasks latest. split; [|repeat split; reflexivity].
-  unfold batches, gen_copy_query. destruct tasks as [ts|]; destruct latest; reflexivity.
-Qed.
